@@ -429,7 +429,11 @@ class Repository(base.AbstractGitHostObject, base.AbstractRepository):
             raise
 
         for key, status in combined.status.items():
-            cache.BUILD_STATUS_CACHE[key].set(combined.commit, status)
+            # Never downgrade a successful build already known for this
+            # commit (same rule as the webhook handlers).
+            cached = cache.BUILD_STATUS_CACHE[key].get(combined.commit, None)
+            if not cached or cached.state != 'SUCCESSFUL':
+                cache.BUILD_STATUS_CACHE[key].set(combined.commit, status)
 
         return combined
 
